@@ -247,6 +247,32 @@ theorem accepted_fixed_point_full_refuted :
 example : printB (joined [point 3, between 3, point 3]) = [106, 111, 105, 110, 40, 52, 44, 51, 94, 52, 44, 52, 41] ∧
     printB (joined [point 3, point 3]) = [106, 111, 105, 110, 40, 52, 44, 52, 41] ∧ printB (point 3) = [52] := by decide +kernel
 
+/-- FULL STATEMENT WITHOUT `wfList` (false, known finding K6A): "the reductions of `Join` keep the denoted
+residues for ALL argument lists as long as the K2 rule does not fire".  `join_den_partial` needs every range
+of the arguments non-empty (`wfList`), and the parser does NOT guarantee that: the text `join(5,5..4)`
+(= `printB (joined [point 4, ranged 4 4 false false])`) is ACCEPTED — `5..4` is read as the empty range
+`Ranged{4, 4}` —, `Join` absorbs the point in front of it into that range (the rule `Point{p}` then
+`Ranged{p, …}`), and the result `5..4` denotes nothing: residue 5 is lost although the K2 guard is false.
+The conjuncts record the witness: what the parser returns, that the list is not `wfList`, that K2 does not
+fire, and the two denotations. -/
+theorem join_den_nonwf_refuted :
+    ¬ (∀ xs : List Loc, joinAbs xs = false → den (join xs) ≼ denList xs) ∧
+    parseLocation (printB (joined [point 4, ranged 4 4 false false])) = .ok (ranged 4 4 false false, []) ∧
+    wfList [point 4, ranged 4 4 false false] = false ∧
+    joinAbs [point 4, ranged 4 4 false false] = false ∧
+    denList [point 4, ranged 4 4 false false] = [(4, false)] ∧ den (ranged 4 4 false false) = [] := by
+  have hj : join [point 4, ranged 4 4 false false] = ranged 4 4 false false := Loc.beq_eq _ _ (by decide)
+  refine ⟨?_, ?_, by decide, by decide, by decide, by decide⟩
+  · intro h
+    have := (h [point 4, ranged 4 4 false false] (by decide)).2 (4, false) (by decide)
+    revert this
+    decide
+  · rw [written_join_read_back (point 4) [ranged 4 4 false false] (by decide), hj]
+
+/-- the witness text of `join_den_nonwf_refuted` is the string `join(5,5..4)` -/
+example : printB (joined [point 4, ranged 4 4 false false]) =
+    [106, 111, 105, 110, 40, 53, 44, 53, 46, 46, 52, 41] := by decide +kernel
+
 /-- FULL STATEMENT (false, known finding K3): "`Join` of canonical arguments is canonical".  The
 arguments `4, 3^4, 4` (each canonical) reduce to `join(4,4)`, which is not a fixed point of `Join`. -/
 theorem join_canon_full_refuted :
